@@ -55,7 +55,7 @@ Definition post (e : option err) (c : ctx) : Prop :=
   match e with
   | None | Some EBreak | Some ELBreak | Some ECont => calm c
   | Some (EUser m) => ncalls c = S m
-  | Some _ => True
+  | Some _ => calm c
   end.
 
 Definition good (x : ctx * option err) : Prop := okc (fst x) /\ post (snd x) (fst x).
@@ -674,7 +674,7 @@ Proof.
   pose proof (okc_run_mods (mods r) c1 va G) as M. destruct (run_mods U (mods r) c1 va) as [c2 wa]. cbn [fst] in M.
   destruct (cerr c2) as [x|] eqn:E2.
   { split; [exact M|]. cbn [fst snd]. unfold okc in M. rewrite E2 in M. unfold post.
-    destruct x; try tauto; try exact I. }
+    destruct x; try tauto; unfold calm; rewrite E2; exact I. }
   assert (C2 : calm c2) by (unfold calm; rewrite E2; exact I).
   destruct (calm_ctx_set_path U c2 (dst r) wa (ins r) C2) as [S1 S2].
   destruct (ctx_set_path U c2 (dst r) wa (ins r)) as [c3 e3].
@@ -691,6 +691,31 @@ Theorem user_error_is_last_call fuel t c c' m :
 Proof.
   intros H E. pose proof (good_rules_lz (follow U fuel) (follow_sound fuel) t c false H) as [_ P].
   unfold decode, rules in E. rewrite E in P. exact P.
+Qed.
+
+(* C15: a user function's error sitting in ctx.Err is never masked: whatever
+   construct the failing call is buried in, the rule (and so the decode)
+   returns exactly that error *)
+Theorem user_error_in_ctx_is_returned fuel r c m :
+  calm c -> cerr (fst (follow U fuel r c)) = Some (EUser m) -> snd (follow U fuel r c) = Some (EUser m).
+Proof.
+  intros H E. destruct (follow_sound fuel r c H) as [O P].
+  destruct (follow U fuel r c) as [c' e]. cbn [fst snd] in *.
+  unfold okc in O. rewrite E in O. unfold post, calm in P.
+  destruct e as [x|]; [|rewrite E in P; destruct P].
+  destruct x; try (rewrite E in P; destruct P).
+  f_equal. f_equal. lia.
+Qed.
+
+Corollary decode_returns_user_error fuel t c m :
+  calm c -> cerr (fst (decode U fuel t c)) = Some (EUser m) -> snd (decode U fuel t c) = Some (EUser m).
+Proof.
+  intros H E. pose proof (good_rules_lz (follow U fuel) (follow_sound fuel) t c false H) as [O P].
+  unfold decode, rules in *. destruct (rules_lz (follow U fuel) t c false) as [c' e]. cbn [fst snd] in *.
+  unfold okc in O. rewrite E in O. unfold post, calm in P.
+  destruct e as [x|]; [|rewrite E in P; destruct P].
+  destruct x; try (rewrite E in P; destruct P).
+  f_equal. f_equal. lia.
 Qed.
 
 (* C06: a loop statement never hands a loop signal to the rules around it *)
